@@ -1,4 +1,5 @@
 import Mrpro.Lemmas.RotBatchL
+import Mrpro.Lemmas.SrcRotL
 import Mrpro.Lemmas.PowL
 import Mrpro.Model.Rotation
 import Mrpro.Lemmas.RotationL
@@ -24,6 +25,18 @@ theorem toMat_orthogonal (q : Q K) :
     Mat3.mul q.toMat q.toMat.transpose = Mat3.smul (q.normSq * q.normSq) Mat3.one' := M.toMat_orthogonal q
 /-- … with determinant `+1` / `−1` matching the improper flag -/
 theorem rot_det (r : Rot K) : r.toMat.det = sgn r.improper * (r.q.normSq * r.q.normSq * r.q.normSq) := M.rot_det r
+
+/-! ### Tie to the source (regenerated on every run): the component formulas of `_compose_quaternions_single` and
+`_quaternion_to_matrix` *as they stand in `/repo` now* (`Mrpro/Gen/Src.lean`) are `Q.mul` and `Q.toMat` over every commutative ring —
+so every theorem of this file about `Q.mul` / `Q.toMat` is a theorem about the formulas in the source. -/
+theorem src_compose (p q : Q K) : M.Src.rot_compose p.a p.b p.c p.w q.a q.b q.c q.w = Q.mul p q := M.SrcL.rot_compose_eq p q
+theorem src_to_matrix (q : Q K) : M.Src.rot_to_matrix q.a q.b q.c q.w = Q.toMat q := M.SrcL.rot_to_matrix_eq q
+/-- … hence the source formulas themselves satisfy the homomorphism law, associativity and orthogonality -/
+theorem src_matrix_of_product (p q : Q K) :
+    (let r := M.Src.rot_compose p.a p.b p.c p.w q.a q.b q.c q.w; M.Src.rot_to_matrix r.a r.b r.c r.w)
+      = Mat3.mul (M.Src.rot_to_matrix p.a p.b p.c p.w) (M.Src.rot_to_matrix q.a q.b q.c q.w) := by
+  simp only [src_compose, src_to_matrix, toMat_mul]
+example : M.Src.rot_compose (1 : Int) 2 3 4 5 6 7 8 = Q.mul ⟨1, 2, 3, 4⟩ ⟨5, 6, 7, 8⟩ ∧ (Q.mul (⟨1, 2, 3, 4⟩ : Q Int) ⟨5, 6, 7, 8⟩).w = -6 := by decide
 
 /-- composition is associative; the norm is multiplicative (so `@` keeps unit quaternions unit) -/
 theorem mul_assoc (p q r : Q K) : Q.mul (Q.mul p q) r = Q.mul p (Q.mul q r) := M.qmul_assoc p q r
